@@ -165,6 +165,8 @@ class Harness:
     def raises(self, fn, *args, **kwargs):
         """-> (exception or None, result)"""
         try:
+            if getattr(fn, "__self__", None) is self:
+                return None, fn(*args, **kwargs)
             return None, self.call(fn, *args, **kwargs)
         except EngineError:
             raise
